@@ -15,11 +15,14 @@ Sys == \/ (Attempt(TRUE) /\ L("Attempt", 0, TRUE))
        \/ (Attempt(FALSE) /\ L("Attempt", 0, FALSE))
        \/ (Watchdog /\ L("Watchdog", 0, FALSE))
        \/ (CanHold /\ DialBegin /\ L("DialBegin", 0, FALSE))
+       \/ (DialDue /\ DialEnd(FALSE) /\ L("DialEnd", 0, FALSE))
 \* while a dial is in flight: it ends, the clock moves a little (well inside any connect timeout), or stop() is called
 EnvD == \/ (DialEnd(TRUE) /\ L("DialEnd", 0, TRUE))
         \/ (DialEnd(FALSE) /\ L("DialEnd", 0, FALSE))
         \/ (~stopped /\ Stop /\ L("Stop", 0, FALSE))
         \/ (\E d \in {1, 2, 3} : now + d < attempts[Len(attempts)] + R - 3 /\ Tick(d) /\ L("Tick", d, FALSE))
+        \* asyncio TCP: the clock may also run past the connect timeout - the dial then ends as failed (urgent)
+        \/ (Fl = "async" /\ Dev = "tcp" /\ ~stopped /\ \E d \in {R - 1, R, R + 2} : Tick(d) /\ L("Tick", d, FALSE))
 Env == \/ (Start /\ L("Start", 0, FALSE))
        \/ (ReadError /\ L("ReadError", 0, FALSE))
        \/ (WriteError /\ L("WriteError", 0, FALSE))
